@@ -4,6 +4,7 @@ import Enc.Lemmas.ProtoVarint
 import Enc.Lemmas.ProtoWireVal
 import Enc.Lemmas.ProtoLiberal
 import Enc.Lemmas.ProtoMap
+import Enc.Lemmas.ProtoLiberalMap
 /-!
 # C12 — proto bytes are standard protobuf wire format, both ways
 Property theorems only.
@@ -116,5 +117,26 @@ theorem reference_decodes_marshal_maps_partial (fs : Fields) (v : Val)
     (Spec.Protobuf.decode (.struct fs) (marshal (.struct fs) v)).map (Spec.Protobuf.canonical (.struct fs))
       = some (Spec.Protobuf.canonical (.struct fs) v) :=
   Lemmas.ProtoMap.decode_marshal_map_partial fs v hty hv hne hlen
+
+open Lemmas.ProtoWire Lemmas.ProtoMap Lemmas.ProtoLiberalMap in
+/-- **both ways, second half, with maps.** For every message type of `tyOKM` and EVERY byte string the reference decoder
+accepts — map entries with key and value in any order, missing or repeated, unknown fields inside an entry, message
+values split in several occurrences, duplicate keys (first position kept, last value wins), non-minimal varints —
+`Unmarshal` returns literally the same value, provided the input has no ZERO-LENGTH map entry at any depth
+(`noEmptyEntry`). The exclusion is necessary: `Lemmas.ProtoLiberalMap.Findings.empty_entry_differs` (`0a 00` on
+`map[string]int32`: the reference reads `{"": 0}`, this decoder reads the library's own empty-map marker) — the decode
+side of the known finding proto-empty-map-marker. -/
+theorem unmarshal_of_reference_decode_maps_partial (fs : Fields) (hty : tyOKM (.struct fs) = true) (b : Bytes) (v : Val)
+    (hne : noEmptyEntry (.struct fs) b = true)
+    (h : Spec.Protobuf.decode (.struct fs) b = some v) : unmarshal (.struct fs) b = .ok v :=
+  Lemmas.ProtoLiberalMap.unmarshal_of_decode_map_partial fs hty b v hne h
+
+open Lemmas.ProtoWire Lemmas.ProtoMap Lemmas.ProtoLiberalMap in
+/-- … and without any exclusion: everything the reference accepts, `Unmarshal` accepts, with a value of the same
+message / pointer skeleton (`sh`) -/
+theorem unmarshal_accepts_reference_decode_maps (fs : Fields) (hty : tyOKM (.struct fs) = true) (b : Bytes) (v : Val)
+    (h : Spec.Protobuf.decode (.struct fs) b = some v) :
+    ∃ v', unmarshal (.struct fs) b = .ok v' ∧ sh v v' = true :=
+  Lemmas.ProtoLiberalMap.unmarshal_accepts_of_decode_map fs hty b v h
 
 end Enc.Props.C12
